@@ -71,6 +71,8 @@ class HState:
         self.silent_uids: dict = {}
         self.taint = ""
         self.flag_cache: dict = {}  # session -> {uid: last FLAGS it was sent}
+        self.sess_pool: dict = {}
+        self.latent_msgs: dict = {}  # mailbox -> same-second deliveries the server need not have noticed yet
         self.recent_wire: dict = {}  # session -> {uid: \\Recent in the last FLAGS it was sent}
         self.recent_disk: dict = {}  # (mailbox, uidvalidity, uid) -> in .mh_sequences `Recent` when last looked
         self.cmd_reported: dict = {}  # session -> uids whose flags were sent since the last check
@@ -136,8 +138,16 @@ class HState:
             pm = self.pre_model.mboxes.get(ms.selected) if self.pre_model is not None else None
             if pm is not None:
                 pool |= set(pm.uids())
+            # a queued announcement replays a past state: messages that have come and gone since are
+            # candidates too (announcements are made in UID order)
+            sp = self.sess_pool.setdefault(sess.name, set())
+            sp |= pool
+            pool = set(sp)
             cand = sorted(u for u in pool if u not in ms.view and u > ms.max_seen_uid)
             need = n - len(ms.view)
+            if need > len(cand) and self.latent_msgs.get(ms.selected):
+                self._promote_latent(ms.selected)  # the server noticed a same-second delivery early
+                cand = sorted(u for u in set(mb.uids()) | pool if u not in ms.view and u > ms.max_seen_uid)
             if need > len(cand):
                 self.fail("C01.exists-overcount", {"emitter": _emitter(sess)},
                           f"at most {len(ms.view) + len(cand)}", n)
@@ -293,6 +303,13 @@ class HState:
             if ms.idling and op != "done":
                 return  # a client in IDLE may only send DONE
         getattr(self, "ev_" + op)(ev)
+        self._note_uids()
+
+    def _note_uids(self):
+        for sn, ms in self.model.sess.items():
+            mb = self.model.mboxes.get(ms.selected) if ms.selected else None
+            if mb is not None:
+                self.sess_pool.setdefault(sn, set()).update(mb.uids())
 
     def _model_try(self, fn):
         pre = self.model.clone()
@@ -360,6 +377,7 @@ class HState:
         ms = self.model.session(sn)
         self.flag_cache[sn] = {}
         self.recent_wire[sn] = {}
+        self.sess_pool[sn] = set()  # UIDs the selected mailbox has held since this selection
         if st == "ok" and mb is not None:
             exists = vv = un = None
             for x in resps:
@@ -402,6 +420,12 @@ class HState:
             self.model.session(sn).orphaned = False
             return
         self._status("C06", ev, r, exp, False)
+
+    def _known_uid(self, name) -> int:
+        """Highest UID of `name` the server has shown to know (template contents, APPENDUID/COPYUID, any
+        session's replayed view)."""
+        init = max([m[0] for m in self.cfg.get("init", {}).get(name, ())] or [0]) if name in self.cfg.get("init", {}) else 0
+        return max([init, self.announced.get(name, 0)] + [s2.max_seen_uid for s2 in self.model.sess.values() if s2.selected == name])
 
     def _flush_check(self, sn: str, where: str, strict: bool = True):
         """strict: the view must equal the model list.  not strict (IDLE entry/exit, which do
@@ -447,11 +471,12 @@ class HState:
         if ms.idling:
             return
         self.log(f"C[{sn}]: IDLE")
+        i0 = len(s.responses)
         tag = s.send("IDLE")
         self.idle_tag = getattr(self, "idle_tag", {})
         self.idle_tag[sn] = tag
         self.w.loop.settle()
-        if not any(x.kind == "cont" for x in s.responses[-6:]):
+        if not any(x.kind == "cont" for x in s.responses[i0:]):
             self.fail("C06.idle-no-continuation", {}, "+ idling", None)
             return
         ms.idling = True
@@ -557,10 +582,14 @@ class HState:
             self.silent_uids[sn] = [m.uid for m in tgt]
         self.check_recent_disk("before-store")
         rec0 = self._disk_recent(ms.selected) if ms.selected else None
+        known0 = self._known_uid(ms.selected) if ms.selected else 0
         r, resps = self._cmd(sn, f"{'UID ' if uid else ''}STORE {setstr} {item} ({flags})", "store", uid, pre_flags)
         rec1 = self._disk_recent(ms.selected) if ms.selected else None
         if rec0 is not None and rec1 is not None:
-            ch = sorted(u for u in rec0 if u in rec1 and rec0[u] != rec1[u])
+            # (a delivery the server had not shown to know yet legitimately becomes \\Recent when the
+            # command's resync finds it)
+            known = known0
+            ch = sorted(u for u in rec0 if u in rec1 and rec0[u] != rec1[u] and (rec0[u] or u <= known))
             if ch:
                 self.fail("C04.recent-changed-by-store", {"mode": mode, "uid": uid, "set": [rec1[u] for u in ch][:1]},
                           {u: rec0[u] for u in ch}, {u: rec1[u] for u in ch})
@@ -739,6 +768,34 @@ class HState:
             self.w.deliver(folder, msgs.make(cid, crlf=False), unseen=unseen, mtime=msgs.idate_epoch(idn))
             self.model.deliver(name, cid, unseen, msgs.idate_epoch(idn))
         self.log(f"ENV: deliver {n} to {name} unseen={unseen}")
+
+    def _promote_latent(self, name: str):
+        """A same-second delivery becomes part of the reference store (the server has shown to know it,
+        or the folder's mtime is about to advance)."""
+        mb = self.model.mboxes.get(canon_name(name))
+        for cid, unseen, idate in self.latent_msgs.pop(canon_name(name), []):
+            if mb is not None and all(m.cid != cid for m in mb.msgs):
+                self.model.deliver(name, cid, unseen, idate)
+
+    def ev_latent(self, ev):
+        """Composite: an MH agent delivers within the second of the folder's current mtime (so the
+        server need not notice), one command on explicitly numbered messages runs, then the mtime advances.
+        Whether the server notices the message early (it announces it: EXISTS) or late is its choice."""
+        name = canon_name(ev["m"])
+        folder = "inbox" if name == "INBOX" else name
+        unseen = ev.get("unseen", True)
+        cid = f"L{self.step}"
+        idate = msgs.idate_epoch(7000 + self.step)
+        self.w.deliver(folder, msgs.make(cid, crlf=False), unseen=unseen, mtime=idate, tick=False)
+        self.latent_msgs.setdefault(name, []).append((cid, unseen, idate))
+        self.log(f"ENV: deliver 1 to {name} unseen={unseen} within the second of the folder's mtime")
+        inner = ev["then"]
+        ms = self.model.session(inner["s"])
+        if not (ms.dead or ms.idling):
+            getattr(self, "ev_" + inner["op"])(inner)
+        self._promote_latent(name)
+        self.w.touch(folder)
+        self.log(f"ENV: tick {name}")
 
     def ev_tick(self, ev):
         folder = "inbox" if canon_name(ev["m"]) == "INBOX" else ev["m"]
@@ -1073,6 +1130,8 @@ class HState:
                 continue
             for u, rec in dr.items():
                 k = (name, mb.vv, u)
+                if u > self._known_uid(name):
+                    continue  # not noticed by the server yet: it is given \\Recent when it is
                 if rec and self.recent_disk.get(k) is False:
                     self.fail("C04.recent-set-again", {"on": "disk", "at": where}, "not in Recent", {"uid": u})
                 self.recent_disk[k] = rec
